@@ -37,6 +37,8 @@ func runC20(r *engine.Run) {
 	r.Rule("REF-pooled", "the byte view (Bytes()) of a pooled zap encoder buffer is only handed to calls while the function owns the buffer: it is never returned, stored, put into a map, sent, given to a goroutine, or used after a Free of that buffer")
 	r.Rule("WHO-filter", "the cores of a logger are combined by a plain zapcore.NewTee and core/logging builds no sampling or level-raising core (NewSampler*, NewIncreaseLevelCore, IncreaseLevel): every entry a logger accepts reaches the in-memory core")
 	r.Rule("WHO-reorder", "no function of core/logging hands a slice of logged entries to a sorting function (sort.Slice/SliceStable/Sort/Stable, slices.Sort*): the order of a snapshot is the order the ring was written in, never an order derived from a field of the entries (timestamps are taken before the write lock or supplied by the caller)")
+	r.Rule("LOCK-reentrant", "see C16: no function acquires a mutex of an object (directly, or through a call on the same receiver) while the calling goroutine already holds that mutex of the same object - here the core's RWMutex reached through the logger's core field; a nested RLock blocks for ever once a writer queues up between the two acquisitions")
+	r.Rule("AGREE-wiring", "InitLogging tees every in-memory core it creates into exactly one logger (one GetCore() per created MemLogger variable): a core shared by two loggers holds the entries of both")
 	r.NotDec = append(r.NotDec, "'exactly the most recent N, newest first' as a sequence property of GetLogs' index arithmetic")
 	const rule = "LOCK-ring"
 	entries := exportedEntries(r, rule, pkgLog, map[string]bool{"MemCore": true, "MemLogger": true})
@@ -91,6 +93,8 @@ func runC20(r *engine.Run) {
 	writeAtRoot(r, "AGREE-share")
 	whoReorder(r, "WHO-reorder")
 	shareLevel(r, "AGREE-share")
+	lockReentrant(r, "LOCK-reentrant", funcsOfPkg(r, pkgLog), 2)
+	agreeWiring(r, "AGREE-wiring")
 }
 
 // sameCore: within one function, the core whose mu is locked is the core
